@@ -336,6 +336,53 @@ func runC12(c *Ctx) {
 			rep.Eval(fmt.Sprintf("history/buffer-reuse/ivlen=%d/steps=%d", len(iv), len(trace)))
 		}
 	}
+	// (8) many keys, then the first ones again (serial): whatever the helpers remember per key — a table, a subkey — is
+	// bounded somewhere; what they answer for a key seen two thousand keys ago must still be standard GCM. Short messages,
+	// IV lengths 12 and 16, both API forms.
+	{
+		rk := c.Rng("many-keys")
+		nKeys := c.Q(2500, 70000)
+		keys := make([][]byte, nKeys)
+		for i := range keys {
+			keys[i] = rk.Bytes(16)
+		}
+		check := func(i int, phase string) bool {
+			key := keys[i]
+			iv := rk.Bytes(12 + 4*(i%2))
+			p, a := rk.Bytes(1+i%33), rk.Bytes(i%7)
+			wantC, wantT, err := ref.SM4GCMSeal(key, iv, p, a)
+			if err != nil {
+				return true
+			}
+			var C, T, P2, T2 []byte
+			w := map[string]interface{}{"key_index": i, "keys_in_this_process": nKeys, "phase": phase, "key": mon.Hex(key), "iv": mon.Hex(iv), "aad": mon.Hex(a), "plaintext": mon.Hex(p)}
+			if pi := mon.Guard(func() {
+				if i%2 == 0 {
+					C, T, _ = sm4.Sm4GCM(key, iv, p, a, true)
+				} else {
+					C, T = sm4.GCMEncrypt(key, iv, p, a)
+				}
+				P2, T2 = sm4.GCMDecrypt(key, iv, wantC, a)
+			}); pi != nil {
+				rep.Violation("C12/many-keys/panic/"+pi.Func, pi.Value, w)
+				return false
+			}
+			if !bytes.Equal(C, wantC) || !bytes.Equal(T, wantT) || !bytes.Equal(P2, p) || !bytes.Equal(T2, wantT) {
+				rep.Violation("C12/many-keys/differs-from-standard-GCM/"+phase, fmt.Sprintf("key %d of %d", i, nKeys), w)
+				return false
+			}
+			return true
+		}
+		ok := true
+		for i := 0; i < nKeys && ok; i++ {
+			ok = check(i, "first-use")
+		}
+		for i := 0; i < nKeys && ok; i += 1 + i/16 { // dense at the start, thinner later
+			ok = check(i, "revisit-after-all-other-keys")
+		}
+		rep.Eval("many-keys/then-revisit")
+		rep.Count("many_keys_scenario_keys", int64(nKeys))
+	}
 	rep.Sample(map[string]interface{}{"kind": "tuple", "ivlen": 12, "A_len": 5, "P_len": 33, "oracle": "C,T == cipher.NewGCM(refSM4).Seal; GCMDecrypt(refC) == P and tag == refT; every single-bit change of K/IV/A/C changes the recomputed tag"})
 }
 
